@@ -108,6 +108,26 @@ func scalarPayloads(fd protoreflect.FieldDescriptor, max int) (labels []string, 
 	return
 }
 
+// wideVarints: varints carrying more bits than the field's kind holds (decoders truncate: to 32 bits BEFORE undoing
+// zigzag for sint32, to "non-zero" for bool), and the 5-byte form of a negative 32-bit number.
+func wideVarints(fd protoreflect.FieldDescriptor) (labels []string, pays [][]byte) {
+	add := func(l string, v uint64) {
+		labels = append(labels, l)
+		pays = append(pays, protowire.AppendVarint(nil, v))
+	}
+	switch fd.Kind() {
+	case protoreflect.Int32Kind, protoreflect.Uint32Kind, protoreflect.Sint32Kind, protoreflect.EnumKind:
+		add("wide(2^32+1)", 1<<32+1)
+		add("wide(2^32-1:5bytes)", 1<<32-1)
+		add("wide(2^63+2^32+2^31+3)", 1<<63+1<<32+1<<31+3)
+	case protoreflect.BoolKind:
+		add("wide(2)", 2)
+		add("wide(2^32)", 1<<32)
+		add("wide(2^63)", 1<<63)
+	}
+	return
+}
+
 // RecordAlphabet generates the well-typed record alphabet R(T) of DESIGN C03 from the descriptor.
 func RecordAlphabet(md protoreflect.MessageDescriptor, rich bool) []Rec {
 	var out []Rec
@@ -187,6 +207,16 @@ func RecordAlphabet(md protoreflect.MessageDescriptor, rich bool) []Rec {
 			add(fd, "entry+unknown-group-subfield", "{k1,?6:group(k0,v0),v1}", entry(K(k1), grp, V(v1)))
 			add(fd, "entry+unknown-subfield-wide-number", "{k1,v1,?300000:bytes(k0,v0)}", entry(K(k1), V(v1), protowire.AppendBytes(tagBytes(300000, protowire.BytesType), inner)))
 			add(fd, "entry-padded-tags", "{k1(padded-tag),v1(padded-tag)}", entry(append(padVarint(kt), k1...), append(padVarint(vt), v1...)))
+			if wl, wp := wideVarints(kfd); len(wp) > 0 {
+				add(fd, "entry-wide-key", "{"+wl[0]+":v1}", entry(K(wp[0]), V(v1)))
+				add(fd, "entry-wide-key", "{"+wl[2]+":v1}", entry(K(wp[2]), V(v1)))
+			}
+			if vfd.Kind() != protoreflect.MessageKind {
+				if wl, wp := wideVarints(vfd); len(wp) > 0 {
+					add(fd, "entry-wide-value", "{k1:"+wl[0]+"}", entry(K(k1), V(wp[0])))
+					add(fd, "entry-wide-value", "{k1:"+wl[2]+"}", entry(K(k1), V(wp[2])))
+				}
+			}
 			if rich {
 				for j := range kp {
 					add(fd, "entry", fmt.Sprintf("{%s:v1}", kl[j]), entry(K(kp[j]), V(v1)))
@@ -218,6 +248,14 @@ func RecordAlphabet(md protoreflect.MessageDescriptor, rich bool) []Rec {
 				body := append(append([]byte(nil), ps[len(ps)-1]...), ps[0]...)
 				rec := append(tagBytes(num, protowire.BytesType), padVarint(protowire.AppendVarint(nil, uint64(len(body))))...)
 				add(fd, "packed-padded-length", "packed[2](padded-length)", append(rec, body...))
+				if wl, wp := wideVarints(fd); len(wp) > 0 {
+					var wb []byte
+					for j := range wp {
+						add(fd, "unpacked-wide-varint", wl[j], append(tagBytes(num, wt), wp[j]...))
+						wb = append(wb, wp[j]...)
+					}
+					add(fd, "packed-wide-varints", "packed[wide x3]", protowire.AppendBytes(tagBytes(num, protowire.BytesType), wb))
+				}
 			}
 		case isMsg:
 			ls, es := SubMessages(fd.Message())
@@ -235,6 +273,10 @@ func RecordAlphabet(md protoreflect.MessageDescriptor, rich bool) []Rec {
 				add(fd, "value", ls[j], append(tagBytes(num, wt), ps[j]...))
 			}
 			add(fd, "value-padded-tag", ls[len(ls)-1]+"(padded-tag)", append(padVarint(tagBytes(num, wt)), ps[len(ps)-1]...))
+			wl, wp := wideVarints(fd)
+			for j := range wp {
+				add(fd, "value-wide-varint", wl[j], append(tagBytes(num, wt), wp[j]...))
+			}
 		}
 	}
 	// unknown records of every wire type
